@@ -95,7 +95,17 @@ def rule_resize(run):
     resizemodel.run_rule(run, "C09.resize")
 
 
-RULES = [rule_rows, rule_siblings, rule_intarith, rule_ext, rule_widths, rule_literals, rule_castmatrix, rule_multi_index, rule_resize]
+def rule_views(run):
+    from ..rules import views
+    views.run_rule(run, "F-VIEW")   # run-time slices address the bits the constant twin selects
+
+
+def rule_tracer(run):
+    from . import c02
+    c02.rule_tracer_tables(run)     # a comparison with the constant on the left uses the mirrored operator in both worlds
+
+
+RULES = [rule_rows, rule_siblings, rule_intarith, rule_ext, rule_widths, rule_literals, rule_castmatrix, rule_multi_index, rule_resize, rule_views, rule_tracer]
 LEVEL = "other"
 EXPLANATION = (
     "Structural agreement between the compile-time (folding) path and the run-time path of primitive operators: "
